@@ -74,7 +74,10 @@ NF(sig, ign, bd) ==
   IN [b |-> [nm \in (DOMAIN bd.b) \ inames |-> bd.b[nm]],
       extra |-> IF ign.star THEN <<>>
                 ELSE [x \in 1..Len(bd.extra) |-> IF (np + x - 1) \in ign.idx THEN [t |-> "NULL", v |-> 0] ELSE bd.extra[x]],
-      xkw |-> IF ign.dstar THEN {} ELSE {x \in bd.xkw : x.n \notin inames}]
+      \* (a name in the ignore specification selects the PARAMETER of that name; an extra keyword that merely shares its
+      \* name with a positional-only parameter - f(1, x=2) for def f(x, /, **kw) - is not what the name selects)
+      xkw |-> IF ign.dstar THEN {}
+              ELSE {x \in bd.xkw : x.n \notin inames \/ x.n \in {sig.pos[y].n : y \in {z \in 1..np : IsPO(sig.pos[z])}}}]
 
 NFSame(a, b) == a = b      \* identical (type and value): antecedent of C09 / C11
 
